@@ -324,8 +324,20 @@ func runXtplCase(r *Rng, out *outFiles, work string, idx int) {
 				lead += fmt.Sprintf(`<i %sdefine="fr%d_%d">`, ap, f, ln)
 				tail = "</i>"
 			}
-			open := lead + "<p " + ap + attr + "=" + delim
-			lineText := open + val.String() + delim + ">z</p>" + tail
+			// the element may be written in every form the scanner accepts: open + close tag, self-closing, void
+			el, closer := "p", ">z</p>"
+			switch r.Intn(6) {
+			case 0:
+				el, closer = "input", " />"
+			case 1:
+				el, closer = "img", "/>"
+			case 2:
+				el, closer = "br", ">"
+			case 3:
+				el, closer = "p", " />"
+			}
+			open := lead + "<" + el + " " + ap + attr + "=" + delim
+			lineText := open + val.String() + delim + closer + tail
 			for _, p0 := range ps {
 				all := []struct {
 					c   xCall
